@@ -53,13 +53,15 @@ static int64_t shapeModels()
     return static_cast<int64_t>((allShapes().size() + kEqPerModel - 1) / kEqPerModel);
 }
 
+static int64_t scaledModels();
+
 int64_t vh_case_count(const std::string &tier, uint64_t)
 {
     // quick: a seed-chosen third of the shape models + systems; thorough: all shape models + random trees + systems
     if (tier == "thorough") {
-        return shapeModels() + 600 + 2500;
+        return shapeModels() + 600 + 2 * scaledModels() + 2500;
     }
-    return shapeModels() / 3 + 150;
+    return shapeModels() / 3 + (scaledModels() + 1) / 2 + 150;
 }
 
 // ---------- layer 1: expression shapes in one dimensionless component ----------
@@ -337,6 +339,239 @@ static void runShapes(Ctx &ctx, int64_t modelIndex, bool randomTrees)
              names[0] + " := " + exprToString(exprs[0]) + " (+" + std::to_string(exprs.size() - 1) + " more equations)");
 }
 
+// ---------- layer 3: which operand of which operator is a variable read through a units conversion ----------
+// Two sibling components.  "home" owns the variable of integration, a state and five constants; "user" reads each of
+// them through a connection in differently scaled units (second -> millisecond, volt -> millivolt / kilovolt, compound
+// user units built from two scaled user units, dimensionless multiples) and owns two plain constants.  Every equation
+// of "user" is one operator applied to operands of which a chosen one (or all) is such a converted variable: operator x
+// arity (n-ary: 2..4) x position, so a conversion applied to the wrong node of the tree changes a compared value.
+struct ScaledSource
+{
+    const char *name;
+    QKind kind;
+    const char *homeUnits;
+    double homeScale;
+    const char *userUnits;
+    double userScale;
+    double userValue; // the number the "user" component should see (moderate, so every operator stays in its domain)
+};
+static const std::vector<ScaledSource> &scaledSources()
+{
+    static const std::vector<ScaledSource> v = {
+        {"t", QKind::VOI, "second", 1.0, "millisecond", 1e-3, 0.0},
+        {"S", QKind::STATE, "volt", 1.0, "millivolt", 1e-3, 0.45},
+        {"A", QKind::CONSTANT, "volt", 1.0, "kilovolt", 1e3, 0.6},
+        {"B", QKind::CONSTANT, "decivolt", 0.1, "millivolt", 1e-3, 3.0},
+        {"C", QKind::CONSTANT, "millivolt_per_minute", 1e-3 / 60.0, "kilovolt_per_millisecond", 1e6, 1.75},
+        {"D", QKind::CONSTANT, "kilovolt_per_second", 1e3, "millivolt_per_millisecond", 1.0, 1.2},
+        {"W", QKind::CONSTANT, "kilo_dimensionless", 1000.0, "percent_like", 0.01, 2.5}};
+    return v;
+}
+static const int kScaledLocal = 7; // quantity index of the first plain "user" constant (p), then q
+static const int kEqPerScaledModel = 6; // small models: a crash on one shape hides few others
+
+struct ScaledShape
+{
+    int op;
+    int arity;
+    int pos; // -1: every operand is a converted variable
+};
+static std::vector<ScaledShape> allScaledShapes()
+{
+    std::vector<ScaledShape> s;
+    const auto &ops = valueOps();
+    for (size_t p = 0; p < ops.size(); ++p) {
+        std::vector<int> arities;
+        if (ops[p].op == Op::PIECEWISE) {
+            arities = {3};
+        } else if (ops[p].maxArity < 0) {
+            arities = {std::max(2, ops[p].minArity), 3, 4};
+        } else {
+            for (int a = std::max(1, ops[p].minArity); a <= ops[p].maxArity; ++a) {
+                arities.push_back(a);
+            }
+        }
+        for (int ar : arities) {
+            for (int pos = (ar >= 2 ? -1 : 0); pos < ar; ++pos) {
+                s.push_back({static_cast<int>(p), ar, pos});
+            }
+        }
+    }
+    return s;
+}
+static int64_t scaledModels()
+{
+    return static_cast<int64_t>((allScaledShapes().size() + kEqPerScaledModel - 1) / kEqPerScaledModel);
+}
+
+static void runScaledPositions(Ctx &ctx, int64_t modelIndex)
+{
+    Rng &rng = ctx.rng;
+    const auto &src = scaledSources();
+    const auto &ops = valueOps();
+    auto shapes = allScaledShapes();
+    const std::vector<double> tUser = {0.0, 0.7, 2.3};
+    const std::vector<double> sUser = {0.45, 0.8, 1.9};
+    const std::vector<double> locals = {1.75, 0.6};
+    SemModel m;
+    m.ncomp = 2;
+    m.compParent = {-1, -1};
+    for (const auto &sc : src) {
+        Quantity q;
+        q.kind = sc.kind;
+        SemInstance h;
+        h.comp = 0;
+        h.name = std::string(sc.name) + "_home";
+        h.units = sc.homeUnits;
+        h.scale = sc.homeScale;
+        SemInstance u;
+        u.comp = 1;
+        u.name = sc.name;
+        u.units = sc.userUnits;
+        u.scale = sc.userScale;
+        q.inst = {h, u};
+        q.init = sc.userValue * sc.userScale / sc.homeScale;
+        if (sc.kind == QKind::STATE) {
+            q.def = mkCnD(1.0);
+        }
+        m.q.push_back(q);
+    }
+    m.voi = 0;
+    m.order = {1};
+    for (size_t i = 0; i < locals.size(); ++i) {
+        Quantity q;
+        q.kind = QKind::CONSTANT;
+        SemInstance h;
+        h.comp = 1;
+        h.name = i == 0 ? "p" : "q";
+        h.units = "dimensionless";
+        q.inst = {h};
+        q.init = locals[i];
+        m.q.push_back(q);
+    }
+    std::vector<SemPoint> points;
+    for (size_t p = 0; p < 3; ++p) {
+        SemPoint sp;
+        sp.voi = tUser[p] * 1e-3;
+        sp.stateValues = {sUser[p] * 1e-3};
+        points.push_back(sp);
+    }
+    m.q[1].init = points[0].stateValues[0];
+    // the numbers "user" sees, for the validity pre-check of candidate expressions
+    auto leafVal = [&](size_t p) {
+        return [&, p](const Expr &leaf) -> Val {
+            if (leaf.quantity == 0) {
+                return Val::exact(tUser[p]);
+            }
+            if (leaf.quantity == 1) {
+                return Val::exact(sUser[p]);
+            }
+            if (leaf.quantity < kScaledLocal) {
+                return Val::exact(src[static_cast<size_t>(leaf.quantity)].userValue);
+            }
+            return Val::exact(locals[static_cast<size_t>(leaf.quantity - kScaledLocal)]);
+        };
+    };
+    std::vector<std::string> labels;
+    std::vector<ExprP> exprs;
+    int discarded = 0;
+    for (int k = 0; k < kEqPerScaledModel; ++k) {
+        size_t si = static_cast<size_t>(modelIndex) * kEqPerScaledModel + static_cast<size_t>(k);
+        if (si >= shapes.size()) {
+            break;
+        }
+        const auto &sh = shapes[si];
+        const auto &oi = ops[static_cast<size_t>(sh.op)];
+        bool boolKids = wantsBoolKids(oi.op);
+        ExprP e;
+        bool ok = false;
+        std::string usedSrc;
+        for (int attempt = 0; attempt < 80 && !ok; ++attempt) {
+            usedSrc.clear();
+            auto converted = [&](bool wantBool) -> ExprP {
+                int s = static_cast<int>(rng.below(src.size()));
+                usedSrc += src[static_cast<size_t>(s)].name;
+                auto c = mkCi("", s);
+                if (!wantBool) {
+                    return c;
+                }
+                static const std::vector<Op> rel = {Op::LT, Op::GT, Op::LEQ, Op::GEQ, Op::NEQ};
+                auto other = rng.chance(0.5) ? mkCi("", kScaledLocal + static_cast<int>(rng.below(2))) : mkCnD(rng.pick(std::vector<double>{0.5, 1.0, 2.0, 1.5}));
+                return rng.chance(0.5) ? mkOp(rng.pick(rel), {c, other}) : mkOp(rng.pick(rel), {other, c});
+            };
+            auto plain = [&](bool wantBool) -> ExprP {
+                auto a = rng.chance(0.6) ? mkCi("", kScaledLocal + static_cast<int>(rng.below(2))) : mkCnD(rng.pick(std::vector<double>{0.5, 2.0, 1.5, 3.0, 0.25, 1.2, 0.8, 4.0}));
+                if (!wantBool) {
+                    return a;
+                }
+                static const std::vector<Op> rel = {Op::LT, Op::GT, Op::LEQ, Op::GEQ, Op::NEQ};
+                return mkOp(rng.pick(rel), {a, mkCnD(rng.pick(std::vector<double>{0.5, 1.0, 2.0, 1.5}))});
+            };
+            e = mkOp(oi.op, {});
+            e->hasQualifier = oi.qualifier;
+            if (oi.op == Op::PIECEWISE) {
+                e->hasOtherwise = true;
+            }
+            for (int i = 0; i < sh.arity; ++i) {
+                bool wb = oi.op == Op::PIECEWISE ? i == 1 : boolKids;
+                e->kids.push_back((sh.pos < 0 || i == sh.pos) ? converted(wb) : plain(wb));
+            }
+            ok = true;
+            for (size_t p = 0; p < 3 && ok; ++p) {
+                ok = evalExpr(e, leafVal(p)).ok;
+            }
+        }
+        if (!ok) {
+            ++discarded;
+            continue;
+        }
+        std::function<bool(const ExprP &)> dyn = [&](const ExprP &x) {
+            if (x->op == Op::CI) {
+                return x->quantity <= 1;
+            }
+            for (const auto &kk : x->kids) {
+                if (dyn(kk)) {
+                    return true;
+                }
+            }
+            return false;
+        };
+        Quantity y;
+        y.kind = dyn(e) ? QKind::ALGEBRAIC : QKind::COMPUTED_CONSTANT;
+        SemInstance h;
+        h.comp = 1;
+        h.name = "y" + std::to_string(exprs.size());
+        h.units = "dimensionless";
+        y.inst = {h};
+        y.def = e;
+        m.q.push_back(y);
+        m.order.push_back(static_cast<int>(m.q.size()) - 1);
+        exprs.push_back(e);
+        std::string nm = std::string("converted-operand:") + opName(oi.op) + (oi.qualifier ? "^q" : "") + "/" + std::to_string(sh.arity) + "@" + (sh.pos < 0 ? std::string("all") : std::to_string(sh.pos));
+        labels.push_back(nm);
+        seen("converted_operand_shape", nm);
+        seen("converted_operand_source", usedSrc.substr(0, 1));
+    }
+    stat("shapes_discarded_undecidable", discarded);
+    stat("equations_generated", static_cast<int64_t>(exprs.size()));
+    stat("converted_operand_equations", static_cast<int64_t>(exprs.size()));
+    if (exprs.empty()) {
+        caseInfo("", false);
+        return;
+    }
+    std::vector<std::string> qlabels(m.q.size());
+    for (size_t i = 0; i < exprs.size(); ++i) {
+        qlabels[static_cast<size_t>(kScaledLocal) + 2 + i] = labels[i];
+    }
+    qlabels[1] = "state+scaled-copies";
+    Judged jd;
+    judge(ctx, m, qlabels, points, "converted-operands model " + std::to_string(modelIndex), jd);
+    stat("values_compared", jd.compared);
+    stat("values_undecidable", jd.undecidable);
+    caseInfo("P" + std::to_string(modelIndex) + "_" + hex64(fnv1a(exprToString(exprs[0]))), jd.compared > 0,
+             labels[0] + " := " + exprToString(exprs[0]) + " (+" + std::to_string(exprs.size() - 1) + " more equations)");
+}
+
 static void runSystem(Ctx &ctx)
 {
     Rng &rng = ctx.rng;
@@ -351,6 +586,7 @@ static void runSystem(Ctx &ctx)
     so.nlaDense = true; // sparse / unguessed implicit systems are not analysable by this tree (C05 known findings)
     so.nlaGuess = true;
     so.scaledUnits = rng.chance(0.7);
+    so.compoundUnits = so.scaledUnits && rng.chance(0.4);
     so.exprDepth = rng.range(1, 3);
     so.odeSelfRate = so.ode && rng.chance(0.05);
     SemModel m = generateSemModel(rng, so);
@@ -426,15 +662,21 @@ void vh_run_case(Ctx &ctx)
             runShapes(ctx, ctx.index, false);
         } else if (ctx.index < nShapeModels + 600) {
             runShapes(ctx, ctx.index, true);
+        } else if (ctx.index < nShapeModels + 600 + 2 * scaledModels()) {
+            runScaledPositions(ctx, (ctx.index - nShapeModels - 600) % scaledModels());
         } else {
             runSystem(ctx);
         }
         return;
     }
     int64_t third = nShapeModels / 3;
+    int64_t half = (scaledModels() + 1) / 2;
     if (ctx.index < third) {
         // a seed-chosen third of the shape models (stride 3 with a seed-dependent offset)
         runShapes(ctx, (ctx.index * 3 + static_cast<int64_t>(ctx.seed % 3)) % nShapeModels, false);
+    } else if (ctx.index < third + half) {
+        // a seed-chosen half of the converted-operand models
+        runScaledPositions(ctx, ((ctx.index - third) * 2 + static_cast<int64_t>(ctx.seed % 2)) % scaledModels());
     } else {
         runSystem(ctx);
     }
